@@ -4,13 +4,13 @@ go 1.26.0
 
 require (
 	github.com/anishathalye/porcupine v1.3.0
+	github.com/emersion/go-sasl v0.0.0-20220912192320-0145f2c60ead
 	github.com/fluffle/goirc v0.0.0
 	golang.org/x/net v0.59.0
 	golang.org/x/tools v0.50.0
 )
 
 require (
-	github.com/emersion/go-sasl v0.0.0-20220912192320-0145f2c60ead // indirect
 	github.com/golang/mock v1.5.0 // indirect
 	golang.org/x/mod v0.41.0 // indirect
 	golang.org/x/sync v0.23.0 // indirect
